@@ -119,6 +119,7 @@ class GradFlow:
         self.changed = False
         self.rounds = 0
         self.state: Dict[Tuple[str, str], Optional[str]] = {}  # (class key, attr) -> blocker via (or absent)
+        self.state_seen: set = set()  # (class key, attr) written on the evaluation path from the module's own state (blocked or not)
         self._state_done: Set[str] = set()
         self.functions_seen: Set[str] = set()
         self.call_sites = 0
@@ -181,6 +182,8 @@ class GradFlow:
             for m in methods:
                 s = self._analyse(m, K, self._default_flags(m))
                 for attr, t in s.self_writes.items():
+                    if any(o == "S" for o, v in t):
+                        self.state_seen.add((K.key, attr))
                     vias = sorted(v for o, v in t if v is not None and o == "S")
                     if vias and self.state.get((K.key, attr)) is None:
                         self.state[(K.key, attr)] = vias[0]
